@@ -186,6 +186,8 @@ impl PriceLookup {
             .flat_map(|t| &t.posts)
             // This must be acctn.comm as txn_commodity is commodity for whole txn
             .map(|p| p.acctn.comm.clone())
+            // The report commodity itself is never converted (e.g. self rate `P .. EUR 2 EUR`)
+            .filter(|c| *c != in_commodity)
             .collect::<BTreeSet<_>>();
 
         let cache = match lookup_timestamp {
